@@ -1253,6 +1253,9 @@ def iterator_loops(fn, region=None):
 ADAPTORS = re.compile(r"(option::Option|result::Result)(::)?<.*>::(or|or_else|map|and_then|unwrap_or|unwrap_or_else|unwrap_or_default|ok_or|ok_or_else|copied|cloned|filter|xor|zip|max|min)$|cmp::Ord::(max|min)$")
 
 
+ACCESSORS = re.compile(r"::(first|last|get|iter|as_slice|as_deref|deref|get_mut|values|keys|first_key_value|last_key_value|as_ref|as_mut)$")
+
+
 def chain_field_reads(fn, operand, depth=0, _seen=None):
     """Fields (adt short name, field) read to produce `operand`, looking through assignments, trivial conversions and
     Option/Result adaptor chains INCLUDING the return values of closures handed to those adaptors
@@ -1293,6 +1296,9 @@ def chain_field_reads(fn, operand, depth=0, _seen=None):
                     if c.id not in _seen:
                         _seen.add(c.id)
                         out |= chain_field_reads(c, {"c": [0, []]}, depth + 1, _seen)
+                    # what the closure captured (precise captures such as `&ledger.active_epoch` carry the field read here)
+                    for o2 in rv.get("os", []):
+                        stack.append(o2)
                     continue
                 for o2 in operands_of_rvalue(rv):
                     stack.append(o2)
@@ -1301,7 +1307,7 @@ def chain_field_reads(fn, operand, depth=0, _seen=None):
             elif d[0] == "call":
                 t = d[2]
                 callee = fn.callee_of(t) or ""
-                if TRIVIAL_CALLS.search(callee) or ADAPTORS.search(callee):
+                if TRIVIAL_CALLS.search(callee) or ADAPTORS.search(callee) or ACCESSORS.search(callee):
                     for a in t["args"]:
                         stack.append(a)
     return out
